@@ -68,7 +68,8 @@ func VerifC06ConsumerFails() {
 	case 7:
 		node = nodes.NewLookupJoin(src(), src())
 	case 8:
-		lim := execution.Expression(execution.NewConstant(octosql.NewInt(100)))
+		// every limit 1..rows+1: the consumer can fail exactly on the row that reaches the limit
+		lim := execution.Expression(execution.NewConstant(octosql.NewInt(int64(1 + zzverif.Choice("limit", rows+1)))))
 		node = nodes.NewLimit(src(), lim)
 	case 9:
 		node = nodes.NewEventTimeBuffer(src())
